@@ -1,7 +1,7 @@
 """steps 1+2 of C02: regenerate IRGen (tables, class-A obligations, IRP skeletons) from /repo, build, audit."""
 import vlib, extract, genobl, c02_gen
 
-MODULES = ['IRModel.Props.C02']
+MODULES = ['IRModel.Props.C02', 'IRModel.Props.C02B']
 
 
 def prove(ctx):
@@ -15,6 +15,7 @@ def prove(ctx):
         ctx.oblige('IRGen.IrpObl.irp_agree_%s' % n, False, 'protocol listed in tools/fragment.json (irpA) has no skeleton any more: ' + reason)
     ctx.extra['irp_skeletons'] = len(skels)
     ctx.extra['irp_agree_obligations'] = sum(1 for n in inames if '.irp_agree_' in n)
+    ctx.extra['irpB_agree_obligations'] = sum(1 for n in inames if '.irpB_agree_' in n)
     ctx.extra['irp_not_plain'] = why
     ok = vlib.prove(ctx, MODULES, ['IRGen.Obligations'] + imods)
     failed = set()
@@ -22,7 +23,7 @@ def prove(ctx):
         if good:
             continue
         short = name.split('.')[-1]
-        for pre in ('irp_ditto_print_', 'irp_ditto_', 'irp_agree_', 'irp_print_', 'c02_', 'wf_', 'wftol_'):
+        for pre in ('irp_ditto_print_', 'irp_ditto_', 'irpB_agree_', 'irpB_print_', 'c02B_', 'irp_agree_', 'irp_print_', 'c02_', 'wfB_', 'wf_', 'wftol_'):
             if short.startswith(pre):
                 tail = short[len(pre):]
                 if pre.startswith('wf') and tail.rsplit('_', 1)[-1].isdigit():
